@@ -190,7 +190,10 @@ func ValidateParameter(ctx context.Context, input *RequestValidationInput, param
 				// Next check `parameter.Required && !found` will catch this.
 			case openapi3.ParameterInQuery:
 				q := req.URL.Query()
-				explode := parameter.Explode != nil && *parameter.Explode
+				explode := true // the default for query parameters
+				if sm, err := parameter.SerializationMethod(); err == nil {
+					explode = sm.Explode
+				}
 				populateDefaultQueryParameters(q, parameter.Name, value, explode)
 				req.URL.RawQuery = q.Encode()
 			case openapi3.ParameterInHeader:
